@@ -206,6 +206,14 @@ def kron_einsum(B, G, k, l, p, q):
     cmp(B, G, "kronecker_prod", cplx.kronecker_prod(X, Y), kr)
     x, zx = ct(B, "x", (k,))
     raises(G, "kronecker_prod.vector", ValueError, lambda: cplx.kronecker_prod(x, Y))
+    # the square of a matrix: both arguments are the SAME tensor object (real and imaginary parts need not commute)
+    Sq, zS = ct(B, "Sq", (2, 2))
+    sq_before = B.scalars(Sq).copy()
+    sref = np.empty((2, 2), dtype=object)
+    for i, j in np.ndindex(2, 2):
+        sref[i, j] = zS[i, 0] * zS[0, j] + zS[i, 1] * zS[1, j]
+    cmp(B, G, "matmul(S,S) same object", cplx.matmul(Sq, Sq), sref)
+    G.fact("matmul(S,S).operand_unchanged", bool(np.all(B.scalars(Sq) == sq_before)), "operand after squaring")
     T4, zT = ct(B, "T", (2, 1, p, q))
     raises(G, "kronecker_prod.rank4", ValueError, lambda: cplx.kronecker_prod(T4, Y))
     # einsum: batched matrix-vector contraction "ijb,ijbg->bg" pattern of the library and "ab,cd->acbd"
